@@ -400,3 +400,28 @@ Example C07_import_dir_nonvacuous :
      end = true
   /\ import_source_ok FGolangMigrate (bs ("-- c" ++ nl ++ "CREATE TABLE ta (a int);" ++ nl)%string) = true.
 Proof. repeat split; vm_compute; reflexivity. Qed.
+
+(** bufio.Scanner's 64 KiB token limit (MaxScanTokenSize): a command written on one line of 65536
+    bytes or more — a large INSERT, a wide CREATE TABLE without indentation — silently ends the
+    Goose and DBMate reader loops; the statements from that line on are lost, no error is returned
+    (sc.Err() is never checked).  For EVERY such line [long]: the up section
+    "SELECT 1;\n" long "\nSELECT 2;\n" is read as the single statement "SELECT 1;".
+    (This is why [dbmate_ok] / [goose_change_ok] contain [short].) *)
+Theorem C07_long_line_refuted : forall long,
+  ~ In 10%N long -> (MAX_LINE + 1 <= N.of_nat (List.length long))%N ->
+  let up := bs ("SELECT 1;" ++ nl)%string ++ long ++ bs (nl ++ "SELECT 2;" ++ nl)%string in
+  texts (of_scan (Stmts (dbmate_text (S_DBMATE_UP ++ up ++ S_DBMATE_DOWN)))) = Some [bs "SELECT 1;"%string]
+  /\ (exists t, goose_text (S_GOOSE_UP ++ up ++ S_GOOSE_DOWN) = Some t
+                /\ texts (of_scan (Stmts t)) = Some [bs "SELECT 1;"%string]).
+Proof.
+  intros long Hn Hl. destruct (long_line_refuted long Hn Hl) as [H1 H2]. cbv zeta. split.
+  - change (bs ("SELECT 1;" ++ nl)%string) with [83;69;76;69;67;84;32;49;59;10]%N.
+    change (bs (nl ++ "SELECT 2;" ++ nl)%string) with [10;83;69;76;69;67;84;32;50;59;10]%N.
+    rewrite H1. vm_compute. reflexivity.
+  - eexists. split.
+    + change (bs ("SELECT 1;" ++ nl)%string) with [83;69;76;69;67;84;32;49;59;10]%N.
+      change (bs (nl ++ "SELECT 2;" ++ nl)%string) with [10;83;69;76;69;67;84;32;50;59;10]%N.
+      exact H2.
+    + vm_compute. reflexivity.
+Qed.
+Print Assumptions C07_long_line_refuted.
